@@ -768,6 +768,18 @@ pub fn run(ctx: &mut Ctx, args: &[String]) {
     let count = std::cmp::max(1, count / 4);
     for_caps!(cap_list, ctx, count);
     for_caps!(cap_vec, ctx, count);
+    // capacities above the 128-byte inline buffer of the SmallVec, generators only
+    if ctx.has("arb") {
+        if ctx.wants("list:2048", "bitfield") {
+            arb_flavour::<BitList<typenum::U2048>>(ctx, count);
+        }
+        if ctx.wants("vec:2048", "bitfield") {
+            arb_flavour::<BitVector<typenum::U2048>>(ctx, count);
+        }
+        if ctx.wants("vec:4096", "bitfield") {
+            arb_flavour::<BitVector<typenum::U4096>>(ctx, count);
+        }
+    }
     if ctx.wants("dyn", "bitfield") {
         per_flavour::<BitVectorDynamic>(ctx, 24, true, count);
     }
